@@ -17,7 +17,7 @@ fn leaf_tokens(root: &syntax::SyntaxNode) -> u64 {
 }
 
 /// Upper bound on the number of tokens any tokenisation of `text` can have: one per byte.
-fn check_total(text: &str) -> (Option<(&'static str, String)>, u64, u64) {
+pub fn check_total(text: &str) -> (Option<(&'static str, String)>, u64, u64) {
     // fuel is armed from a bound known before parsing: tokens <= bytes
     let bytes = text.len() as u64;
     verif::arm(Some(FUEL_PER_TOKEN * (bytes + 1) + 256));
